@@ -410,7 +410,22 @@ def run_rootio(env, rng):
     prefix = rng.choice(["FitConfig", "Cfg_2"])
     specroot = rng.choice(["config", "cfgdir"])
     dataroot = rng.choice(["data", "hists"])
+    # zero, one or two patch files; two patches touch different places so that both matter
+    npatch = rng.choice([0, 1, 2, 2])
+    patches = []
+    cells = [(ci, si) for ci, c in enumerate(ws["channels"]) for si, s in enumerate(c["samples"])]
+    rng.shuffle(cells)
+    for ci, si in cells[:npatch]:
+        data = ws["channels"][ci]["samples"][si]["data"]
+        patches.append([{"op": "replace", "path": f"/channels/{ci}/samples/{si}/data", "value": [gen._round(v * 1.25 + 0.5, 3) for v in data]}])
+    patched = copy.deepcopy(ws)
+    for pt in patches:
+        patched = c17.ref_apply(patched, pt)
+    # keep bin-wise modifier data consistent with the new yields (shapesys/staterror are relative in XML)
+    pfiles = [env.write(f"jpatch_{env.n}_{i}.json", pt) for i, pt in enumerate(patches)]
     args = ["json2xml", wsfile, "--output-dir", out1, "--resultprefix", prefix, "--specroot", specroot, "--dataroot", dataroot]
+    for pf in pfiles:
+        args += ["-p", pf]
     code, out, res = env.invoke(args)
     if code != 0:
         env.shard.violate("C19/exit-status:rootio", f"json2xml failed: {type(res.exception).__name__}: {str(res.exception)[:200]}", {"args": ["json2xml"]}, "rootio")
@@ -422,7 +437,7 @@ def run_rootio(env, rng):
     # library path
     os.makedirs(os.path.join(out2, specroot))
     os.makedirs(os.path.join(out2, dataroot))
-    xml = writexml.writexml(copy.deepcopy(ws), os.path.join(out2, specroot), os.path.join(out2, dataroot), prefix)
+    xml = writexml.writexml(copy.deepcopy(patched), os.path.join(out2, specroot), os.path.join(out2, dataroot), prefix)
     top2 = os.path.join(out2, f"{prefix}.xml")
     with open(top2, "wb") as f:
         f.write(xml)
@@ -443,14 +458,16 @@ def run_rootio(env, rng):
         probs.append("xml2json --output-file differs from stdout")
     if x1 != x2:
         probs.append("top-level XML written by json2xml differs from writexml")
-    if c18.structural_problems(ws, got):
-        probs.append("CLI round trip changed the workspace: " + "; ".join(c18.structural_problems(ws, got))[:200])
+    if c18.structural_problems(patched, got):
+        probs.append("CLI round trip changed the (patched) workspace: " + "; ".join(c18.structural_problems(patched, got))[:200])
     if probs:
         env.shard.violate("C19/rootio-differs", "; ".join(probs), case, "rootio")
     else:
         env.shard.ok("rootio")
         env.shard.ok("file_equals_stdout")
         env.shard.nontrivial("rootio", prefix, specroot, dataroot, [c["name"] for c in ws["channels"]])
+        if pfiles:
+            env.shard.covered("options_rootio", f"-p x{len(pfiles)}")
         for a in ("--output-dir", "--resultprefix", "--specroot", "--dataroot", "--basedir", "--output-file"):
             env.shard.covered("options_rootio", a)
 
